@@ -450,9 +450,11 @@ notify_all = REG.unit(Unit(
              "forall(lambda s: implies(s != sub, ghost('notified')[s] == head_notified[s]), s=Opaque('Subscription'))"),
         ]),
     },
-    props=["C05"], ghost_init=ghost_notify,
+    # C06/C07: add_event calls this after its commit and relies on `raises={}` -- an exception here would turn a stored event into OK=false
+    props=["C05", "C06"], ghost_init=ghost_notify,
     canaries=[("notifies-nobody", "ghost('tasks_created') == 0")],
 ))
+notify_all.obligation_props = [("exc:", ["C05", "C06"]), ("", ["C05"])]
 
 
 # ---- BaseSubscription.notify: live push ----------------------------------------------------------
